@@ -1,7 +1,40 @@
 //! C29: libwild::alignment against 128-bit reference arithmetic (division/modulo only, no masks).
 use crate::out;
 use crate::rng::Rng;
-use libwild::verif_api as w;
+use libwild::verif_api as real;
+
+/// Calls into wild. With UNITS_MUTANT set, a deliberately wrong implementation is substituted so
+/// that the drivers can show the oracle is able to fire (self-validation; never used for verdicts).
+mod w {
+    use super::real;
+    use crate::out::mutant;
+    pub fn align_up(e: u8, v: u64) -> u64 {
+        if mutant() == "align_up_plus_one" && v & ((1u64 << e) - 1) == 0 && e > 0 {
+            return v.wrapping_add(1u64 << e);
+        }
+        real::align_up(e, v)
+    }
+    pub fn align_down(e: u8, v: u64) -> u64 {
+        if mutant() == "align_down_value_mask" {
+            return v & !(1u64 << e); // masks with value() instead of mask()
+        }
+        real::align_down(e, v)
+    }
+    pub fn align_modulo(e: u8, r: u64, v: u64) -> u64 {
+        if mutant() == "align_modulo_no_wrap" {
+            let a = 1u64 << e;
+            let u = real::align_up(e, v);
+            return u.wrapping_add((r & (a - 1)).wrapping_add(a).wrapping_sub(u & (a - 1))); // forgets "-= a"
+        }
+        real::align_modulo(e, r, v)
+    }
+    pub fn alignment_new(raw: u64) -> Option<u8> {
+        if mutant() == "alignment_new_accepts_2_17" && raw == 1 << 17 {
+            return Some(17);
+        }
+        real::alignment_new(raw)
+    }
+}
 
 const MAXV: u128 = u64::MAX as u128;
 
